@@ -220,7 +220,9 @@ PROPS = {
         "text": "Static decision of the ways the pipeline could become non-deterministic: (R-HASH) every iteration over a "
                 "std hash collection in non-test workspace code ends in an order-insensitive sink; (R-STATIC) the only global "
                 "mutable state is the label counter, touched only by fresh_label and used only as label text; (R-AMBIENT) no "
-                "ambient source (env, time, ids, RandomState, addresses) is called from the pipeline crates; (R-TRUNC) every artefact is written into an empty file (File::create, or "
+                "ambient source (env, time, ids, RandomState, addresses) is called from the pipeline crates, and in the command line and the "
+                "driver the terminal and the environment are consulted only by the commands that lay text out for a reader (fmt, texify, "
+                "completions), never on a path from the commands that print the stages of a compilation; (R-TRUNC) every artefact is written into an empty file (File::create, or "
                 "OpenOptions with truncate / append / create_new), so the bytes on disk do not depend on what an earlier compilation "
                 "left under the same name. Decided on the resolved MIR of every body of the workspace.",
         "assumptions": ["third-party crates (pretty, lalrpop-util, miette) are deterministic",
